@@ -701,3 +701,17 @@ impl<K: ExpiredKey<E>, E: Expiration, V: Copy> KeyExpTree<K, E, V> {
         }
     }
 }
+
+#[cfg(ishape_rust_itree_verif)]
+impl<K: ExpiredKey<E>, E: Expiration, V: Copy> KeyExpTree<K, E, V> {
+    /// Verification hook (read-only): root, free list and per-slot (parent, left, right, is_red, key, value).
+    pub fn verif_snapshot(&self) -> (u32, Vec<u32>, Vec<(u32, u32, u32, bool, K, V)>) {
+        let nodes = self
+            .store
+            .buffer
+            .iter()
+            .map(|n| (n.parent, n.left, n.right, n.color == Color::Red, n.entity.key, n.entity.val))
+            .collect();
+        (self.root, self.store.unused.clone(), nodes)
+    }
+}
